@@ -66,6 +66,8 @@ def run(ctx):
             ctx.failure('==/cmp/hash failed', {'a': markers.describe(sess, a), 'b': markers.describe(sess, b)})
             continue
         eq, cm, hs = r[1] == 'T', r[2], r[3] == 'T'
+        if len(r) > 4 and r[4] != 'T':
+            ctx.failure('partial_cmp / < / > / <= of two markers is not the order cmp gives', {'a': markers.describe(sess, a), 'b': markers.describe(sess, b)})
         rels[(a, b)] = cm
         how = {'a': markers.describe(sess, a), 'b': markers.describe(sess, b)}
         same_dump = sess.dumps[a] == sess.dumps[b]
@@ -122,6 +124,8 @@ def run(ctx):
                 continue
             eq, c1, c2, hs, urls = r[1] == 'T', r[2], r[3], r[4] == 'T', r[5]
             how = {'a': a, 'b': b}
+            if len(r) > 6 and r[6] != 'T':
+                ctx.failure('Requirement: partial_cmp / < is not the order cmp gives', how)
             if eq != (c1 == 'Eq') or {'Lt': 'Gt', 'Gt': 'Lt', 'Eq': 'Eq'}[c1] != c2 or (eq and not hs):
                 ctx.failure('Requirement ==/cmp/hash incoherent: == %s cmp %s/%s hash-equal %s' % (eq, c1, c2, hs), how)
             if urls != 'none':
